@@ -218,6 +218,12 @@ func (c04) Gen(r *rand.Rand, tier string, run int) *core.Case {
 		}
 	}
 	if c.Params["lend"] == 1 && r.IntN(2) == 0 {
+		// two peers of another kind (they number their messages themselves,
+		// and happen to use the same numbers) call a lent object at the same
+		// time, each over a connection of its own
+		c.Params["twin_raw"] = 1 + r.IntN(3)
+	}
+	if c.Params["lend"] == 1 && r.IntN(2) == 0 {
 		for i := 0; i < 1+r.IntN(4); i++ {
 			c.Ops = append(c.Ops, core.Op{Kind: "raw", Actor: 100, X: int64(1 + r.IntN(8)), Y: int64(r.IntN(4)), S: "lent"})
 		}
@@ -477,6 +483,46 @@ func (c04) Run(c *core.Case, env *core.Env) {
 			}
 		}(a)
 	}
+	if n := c.P("twin_raw", 0); n > 0 {
+		for twin := 0; twin < 2; twin++ {
+			wg.Add(1)
+			go func(twin int) {
+				defer wg.Done()
+				peer, err := DialRaw(env, fmt.Sprintf("rawtwin%d", twin), 110+twin)
+				if err != nil {
+					return
+				}
+				if ok, err := peer.Auth("u", "p"); err != nil || !ok {
+					return
+				}
+				obj := w.Impls[0].LentPublicID()
+				if obj == 0 {
+					return
+				}
+				for i := 0; i < n; i++ {
+					// the same message ids on both connections
+					id := uint32(7001 + 2*i)
+					tok := ref.Token{Client: int32(110 + twin), Seq: int32(i), Nonce: int64(twin), Text: "w"}
+					h := env.Invoke(110+twin, "raw-twin-call", tok.Key())
+					err := peer.Send(ref.NewFrame(ref.Call, w.ServiceID, obj, ActEcho, id, ref.EncodeToken(tok)))
+					out := ""
+					if err == nil {
+						if a, ok := peer.WaitID(id); !ok {
+							err = fmt.Errorf("connection closed")
+						} else if a.Type == ref.Error {
+							err = fmt.Errorf("%s", ref.ErrorText(a.Payload))
+						} else if t, derr := ref.DecodeToken(a.Payload); derr != nil {
+							out = "undecodable"
+						} else {
+							out = t.Key()
+						}
+					}
+					env.Return(h, out, err)
+				}
+				env.Probe("peers-numbering-their-messages-alike-call-a-lent-object")
+			}(twin)
+		}
+	}
 	if k := c.P("premature", 0); k > 0 {
 		wg.Add(1)
 		go func() {
@@ -714,6 +760,9 @@ func (c04) Check(c *core.Case, env *core.Env, res zzsim.Result, v *core.Verdict)
 	noargFrames := 0
 	seenOrd := map[string]*core.Hist{}
 	for _, h := range hs {
+		if h.Kind == "raw-twin-call" && h.Ret != 0 && h.OK && h.Out != h.Arg {
+			bad("wrong-reply", "a peer called a lent object with the token %s and was answered with %s (another peer, on another connection, used the same message id at the same time)", h.Arg, h.Out)
+		}
 		if strings.HasPrefix(h.Kind, "raw-") {
 			if h.Ret == 0 {
 				bad("hang/"+h.Kind, "a peer's request has no outcome, neither an answer nor the end of its connection: %s", h)
